@@ -117,7 +117,7 @@ func genSpec(cfg Config) *rapid.Generator[spec] {
 				intents = append(intents, "file", "file", "dir", "dangling", "chain", "dotslash", "updown")
 			}
 			if cfg.OutLinks {
-				intents = append(intents, "out-rel-file", "out-rel-dir", "out-abs-file", "out-abs-dir", "sibling-prefix", "in-abs", "out-chain", "out-dangling", "climb-by-name", "exact-parent", "exact-root")
+				intents = append(intents, "out-rel-file", "out-rel-dir", "out-abs-file", "out-abs-dir", "sibling-prefix", "in-abs", "out-chain", "out-dangling", "climb-by-name", "exact-parent", "exact-root", "out-via-dotlink")
 			}
 			if len(cfg.LinkIntents) > 0 {
 				intents = cfg.LinkIntents
@@ -190,6 +190,7 @@ var NestedOutside = fsx.Tree{
 
 // Build turns specs into a tree; link targets are rendered once all paths are known.
 func build(specs []spec, cfg Config) fsx.Tree {
+	needDot := false
 	dirs := []string{""}
 	have := map[string]string{}
 	var nodes fsx.Tree
@@ -323,6 +324,10 @@ func build(specs []spec, cfg Config) fsx.Tree {
 			n.Target = ups + "../ext/" + []string{"chain", "chain2", "dirchain"}[pick%3]
 		case "out-dangling":
 			n.Target = []string{ups + "../ext/nothing", "{R}/nowhere", ups + "../../../nowhere"}[pick%3]
+		case "out-via-dotlink":
+			// reads as a path inside the tree; leaves it by way of an in-tree link to "." (added below)
+			n.Target = ups + "zz-dot/../" + []string{"ext/f", "ext/d", "ext/d/g", "src-evil/secret"}[pick%4]
+			needDot = true
 		case "exact-parent":
 			// exactly the directory that contains the source directory
 			n.Target = strings.TrimSuffix(ups+"..", "/")
@@ -354,6 +359,11 @@ func build(specs []spec, cfg Config) fsx.Tree {
 			}
 		default:
 			n.Target = "missing"
+		}
+	}
+	if needDot {
+		if _, dup := have["zz-dot"]; !dup {
+			nodes = append(nodes, fsx.Node{Path: "zz-dot", Kind: "symlink", Target: "."})
 		}
 	}
 	return nodes
